@@ -2,6 +2,7 @@ package client
 
 import (
 	"github.com/openebs/jiva/replica/rest"
+	"github.com/openebs/jiva/util"
 	"github.com/openebs/jiva/zzmodel"
 )
 
@@ -40,4 +41,37 @@ func zzPrepareRemoveDisk(c *ReplicaClient, disk string) (rest.PrepareRemoveDiskO
 		return out, zzmodel.ErrREST
 	}
 	return out, m.Action("prepareremovedisk", nil)
+}
+
+func zzDelete(c *ReplicaClient, path string) error {
+	m := zzmodel.Replicas[c.address]
+	if m == nil {
+		return zzmodel.ErrREST
+	}
+	return m.Action("delete", nil)
+}
+
+func zzSetLogging(c *ReplicaClient, lf util.LogToFile) error {
+	m := zzmodel.Replicas[c.address]
+	if m == nil {
+		return zzmodel.ErrREST
+	}
+	return m.Action("setlogging", nil)
+}
+
+// any other REST call of the replica client: a management action on the model
+func zzPost(c *ReplicaClient, path string, req, resp interface{}) error {
+	m := zzmodel.Replicas[c.address]
+	if m == nil {
+		return zzmodel.ErrREST
+	}
+	return m.Action("post", nil)
+}
+
+func zzGet(c *ReplicaClient, url string, obj interface{}) error {
+	m := zzmodel.Replicas[c.address]
+	if m == nil {
+		return zzmodel.ErrREST
+	}
+	return m.Action("get", nil)
 }
